@@ -45,7 +45,7 @@ ASSUMPTIONS = [
 ]
 TIERS = {
     "quick": {"runs": 960, "chunk": 12, "wall": 110, "chunk_timeout": 300, "selftest": 6, "values": 4},
-    "thorough": {"runs": 36000, "chunk": 50, "wall": 800, "chunk_timeout": 600, "selftest": 8, "values": 6},
+    "thorough": {"runs": 12000, "chunk": 30, "wall": 800, "chunk_timeout": 600, "selftest": 8, "values": 6},
 }
 EXPECTED_PROBES = {
     "quick": ["cut_in_str_payload", "cut_in_last_str_payload", "inflate_str", "inflate_dyn", "cut_in_float", "flag_set",
